@@ -66,6 +66,21 @@ CHECKS = {
             "Randomised exploration of source files from two independent producers plus all bundled files; idempotence and determinism checked byte for byte.",
             "Trusted: the copy routine uses only public API calls.",
             "DESIGN.md section 5 C19"),
+    "C08": ("exploration",
+            "structure-aware mutation fuzzing (generated mutation scripts over valid seed files, checksums re-sealed) in supervised worker processes built with overflow checks; oracle = no panic / abort / signal at any reading entry point",
+            "Randomised structure-aware mutation of valid files from three producers; every reading entry point is exercised under catch_unwind in a worker whose death is attributed to the case in flight. The thorough tier adds a coverage-guided libFuzzer campaign over the same script decoder.",
+            "Trusted: the supervisor's attribution of worker deaths (each is confirmed by re-running the case alone).",
+            "DESIGN.md section 5 C08"),
+    "C09": ("exploration",
+            "structure-aware mutation fuzzing with deterministic resource oracles: counting allocator (peak heap growth per call), device byte counter, item count <= recordCount; watchdog only as backstop",
+            "Randomised mutation weighted towards resource-relevant fields; per-call memory and I/O bounds are measured, not timed.",
+            "Trusted: counting allocator and in-memory device counters; bound = 64 MiB + 512 x input size x (prototype length + 1).",
+            "DESIGN.md section 5 C09"),
+    "C10": ("exploration",
+            "property-based testing over arbitrary writer call sequences (rule-breaking prototypes, out-of-range / mistyped / wrong-arity values, abandoned writers) in supervised workers; oracle = must-reject model + round trip of everything accepted",
+            "Randomised exploration of invalid and degenerate API usage with a model of the documented rejection rules and a read-back oracle for whatever was accepted.",
+            "Trusted: the harness's model of the documented prototype rules (gen::rule_violation).",
+            "DESIGN.md section 5 C10"),
     "C11": ("exploration",
             "model-based (stateful) property testing: exhaustive operation histories to depth 4/5 over a 20-letter alphabet plus random histories, byte-vector reference model checked after every step",
             "Small-scope exhaustive core (all 20^4 writer histories, thorough 20^5) plus random histories up to 40 steps against a byte-vector model of the logical stream; reader histories over the resulting files.",
@@ -86,6 +101,11 @@ CHECKS = {
             "Randomised exploration of attribute-group subsets, data types and point sequences; bounds and limits are recomputed by an independent model and compared numerically.",
             "Trusted: harness model of min/max over real values; NaN excluded as the property states.",
             "DESIGN.md section 5 C14"),
+    "C20": ("exploration",
+            "property-based testing through real tool processes: generated XYZ files (round trip oracle) and generated E57 files incl. damaged pages (differential against the library and e57ref)",
+            "Randomised XYZ and E57 inputs pushed through the five command line tools as processes; outputs compared with the inputs, the library API and the independent decoder.",
+            "Tools are built from /repo's workspace by bin/check C20; single-space separated XYZ input as the tool documents.",
+            "DESIGN.md section 5 C20"),
 }
 
 PENDING_REASON = "check not built yet in this round of work (see DESIGN.md section 10 for the build order); not claimed"
